@@ -3,6 +3,7 @@ package main
 import (
 	"fmt"
 	"go/token"
+	"go/types"
 	"os"
 	"path/filepath"
 	"regexp"
@@ -215,6 +216,40 @@ func runC26(c *Ctx) {
 			}
 			if wire && isIdx {
 				resume = true
+			}
+		}
+		if !resume {
+			// the other way to resume: the loop index STARTS at the client's cookie (clamped to the listing)
+			for _, b := range h.Blocks {
+				if !inCycle(b) {
+					continue
+				}
+				for _, in := range b.Instrs {
+					phi, ok := in.(*ssa.Phi)
+					if !ok {
+						break
+					}
+					if bt, ok := phi.Type().Underlying().(*types.Basic); !ok || bt.Info()&types.IsInteger == 0 {
+						continue
+					}
+					stepped, fromWire := false, false
+					for i, e := range phi.Edges {
+						if bo, ok := unwrap(e).(*ssa.BinOp); ok && bo.Op == token.ADD && unwrap(bo.X) == ssa.Value(phi) {
+							if k, isC := constInt(bo.Y); isC && k == 1 {
+								stepped = true
+							}
+							continue
+						}
+						if i < len(b.Preds) && !b.Dominates(b.Preds[i]) { // the edge that enters the loop
+							if hasOrigin(fl.Origins(e), func(o Origin) bool { return o.Kind == "outparam" && strings.Contains(o.Desc, "binary.Read") }) {
+								fromWire = true
+							}
+						}
+					}
+					if stepped && fromWire {
+						resume = true
+					}
+				}
 			}
 		}
 		c.verdictIf(resume, P, "cookie", key+" resume", p.pos(h.Pos()), "entries with index < cookie are skipped", "the listing does not resume at the client's cookie (`index < cookie` ⇒ skip)")
